@@ -5,6 +5,17 @@ props = [json.loads(l) for l in open(os.path.join(VERIF, "properties.jsonl"))]
 ids = [p["id"] for p in props]
 
 CHECKS = {
+ "C20": dict(
+   text="PARTIAL by nature. Proved (props/C20.v, all sizes, closed under the global context): a successful solve of n components "
+        "performs exactly n-1 merges; a cascade of any number of reflection-free two-ports solves to the product of the transmissions "
+        "with zero reflection under every schedule; nesting of any depth equals the flat circuit; circuits of passive components are "
+        "passive whatever their size. Not provable in this family and therefore only exhibited: growth of floating-point round-off through "
+        "thousands of LAPACK inversions, CPython recursion/time limits. The check runs /repo at the stated sizes (cascades 1000 quick / "
+        "2000 thorough, nesting 40 / 80, meshes 100 / 400 couplers, lossy reflective chains 200 / 500) under a time limit against the "
+        "proven closed forms (computed exactly, compared inside Coq) and the theorem-derived oracles T^H T = I, T = T^T, passivity.",
+   note="Trusted: Coq kernel + vm_compute; harness (builders, exact closed forms via fractions.Fraction). The runtime half is an "
+        "observation at the sizes run, named as such in the evidence (coverage.partial = true).",
+   technique="Coq proof of the exact-arithmetic half + execution of the implementation at scale against proven closed forms", design="§5 C20"),
  "C02": dict(
    text="Proof: props/C02.v states for hierarchies of ANY depth, any exposure subset at every level, any number of placements of a "
         "sub-circuit (each with its own leaf pins) and any per-level schedule rule: the nested solve (model of Structure.createS with a "
